@@ -57,6 +57,36 @@ end
 /-- token offsets (ns) of a composite of parts started at offset `s` (`none`: not computed, see `partToks`) -/
 def partsToks (ps : List Part) (s : Int) : Option (List Int) := (partsToksF ps s).map (·.1)
 
+/-- one top-level segment of an RPS profile with its brackets removed (nesting changes neither the token times nor the
+finish times: `C12_nested_composite_flat`): a part of the kinds above, or `schedule.NewUnlimited` lasting `ms` -/
+inductive RSeg
+  | leaf (p : Part)
+  | unlim (ms : Int)
+
+/-- how long a part lasts (finish time − start time), ns -/
+def partDur : Part → Int
+  | .once _ => 0
+  | .const _ ms => ms * 1000000
+  | .constm _ ms => ms * 1000000
+  | .step f t st ms => instanceStepDur f t st (ms * 1000000)
+  | .comp _ => 0   -- never produced for RPS profiles (brackets are removed)
+
+/-- tokens a part certainly holds (exact where `partToks` computes it, else the trivial bound 0) -/
+def partFloor (p : Part) : Nat := match partToks p 0 with | some r => r.1.length | none => 0
+
+/-- a lower bound (ns) for the time between the start of an RPS profile and its first "finished" answer that needs no
+knowledge of how many instances draw from it: the durations of all segments up to and including the LAST unlimited one (an
+unlimited part hands out tokens until its time is over, and a composite starts a part at the finish time of the previous
+one; tokens of the other kinds are handed out ahead of their time); 0 without an unlimited segment -/
+def rpsMinNs (segs : List RSeg) : Int :=
+  (segs.foldl (fun (acc : Int × Int) sg => match sg with
+    | .leaf p => (acc.1 + partDur p, acc.2)
+    | .unlim ms => (acc.1 + ms * 1000000, acc.1 + ms * 1000000)) (0, 0)).2
+
+/-- tokens an RPS profile certainly hands out before it may report its end: those of its countable segments -/
+def rpsFloor (segs : List RSeg) : Nat :=
+  segs.foldl (fun acc sg => match sg with | .leaf p => acc + partFloor p | .unlim _ => acc) 0
+
 structure Obs where
   k : Nat
   err : String
@@ -100,6 +130,10 @@ structure Obs where
   rpsspans : List (Int × Int) := []
   /-- `Metrics.InstanceFinish` at the end (none: not observed) -/
   mfin : Option Nat := none
+  /-- tokens handed out by every RPS schedule object that ended, in the order of `rpsspans` -/
+  rpsgiven : List Int := []
+  /-- tokens of the countable parts of the RPS profile (`rpsFloor`, computed from the profile text) -/
+  rpsfloor : Nat := 0
 deriving Repr
 
 /-- margin around a cut inside which "was this token still started?" is not decided -/
@@ -216,6 +250,11 @@ def judgeFired (perinst : Bool) (o : Obs) : String :=
   match o.rpsspans.find? (fun sp => sp.2 - sp.1 < o.rpsmin) with
   | some sp => s!"fail:fired:an RPS profile reported its end {sp.2 - sp.1} ns after its first token was asked for, its parts up to the unlimited one last {o.rpsmin} ns"
   | none =>
+  -- "RPS profile exhausted" is said only of a profile that has handed out every token (exact, whatever else happened: a
+  -- schedule says "finished" — `Left() == 0` or `Next()` without token — only after its last token was taken)
+  match o.rpsgiven.find? (fun g => if o.rpstot ≥ 0 then g != o.rpstot else g < o.rpsfloor) with
+  | some g => s!"fail:fired:an RPS profile reported its end after handing out {g} tokens, it has {if o.rpstot ≥ 0 then s!"{o.rpstot}" else s!"at least {o.rpsfloor} (its countable parts)"}"
+  | none =>
   if stopped || o.err != "nil" || o.running != 0 || o.exits.length != o.k || o.exits.any (·.2.2 == "?") then "ok" else
   let total := (o.shots.map (·.2)).foldl (· + ·) 0
   let sched := o.exits.filter (·.2.2 == "sched")
@@ -223,7 +262,15 @@ def judgeFired (perinst : Bool) (o : Obs) : String :=
   if o.ammo > 0 && total > o.ammo then s!"fail:fired:{total} shots with {o.ammo} ammo" else
   if o.ammo > 0 && sched.isEmpty && !ammoX.isEmpty && total != o.ammo then
     s!"fail:fired:every instance finished as out of ammo after {total} shots in all, the provider had {o.ammo} ammo" else
-  if o.rpstot < 0 then "ok" else
+  if o.rpstot < 0 then
+    -- a profile with an unlimited part: at least the tokens of its countable parts were fired by whoever finished as "exhausted"
+    (if perinst then
+      match sched.find? (fun x => shotsOf o x.1 < o.rpsfloor) with
+      | some x => s!"fail:fired:instance {x.1} finished as 'RPS profile exhausted' after {shotsOf o x.1} shots, the countable parts of its profile alone have {o.rpsfloor} tokens"
+      | none => "ok"
+    else if !sched.isEmpty && o.ammo == 0 && total < o.rpsfloor then
+      s!"fail:fired:instances finished as 'RPS profile exhausted' after {total} shots in all, the countable parts of the shared profile alone have {o.rpsfloor} tokens"
+    else "ok") else
   let r := o.rpstot.toNat
   if perinst then
     match sched.find? (fun x => shotsOf o x.1 != r) with
